@@ -34,7 +34,8 @@ fn tier_of(s: Option<&String>) -> Tier {
 
 fn main() {
     alloc::install_panic_hook();
-    // force process-wide lazies before any paused runtime exists
+    // deterministic RSA key pair (hook H5), then force process-wide lazies before any paused runtime exists
+    passage_protocol::verif::rng::set_key_seed(0x5eed_0f_5e_55_10_4e);
     let _ = passage_protocol::crypto::generate_keep_alive();
     let _ = passage_protocol::crypto::KEY_PAIR.1.clone();
     let _ = passage_protocol::crypto::ENCODED_PUB.len();
